@@ -105,7 +105,6 @@ func (c *RegionCache) VerifEpochNotMatch(bo *retry.Backoffer, v RegionVerID, cur
 	return true, retry, err
 }
 
-<<<<<<< HEAD
 // VerifExpire lets the TTL of the cached region run out (without the invalidation marker).
 func (c *RegionCache) VerifExpire(v RegionVerID) bool {
 	r := c.GetCachedRegionWithRLock(v)
@@ -126,7 +125,8 @@ func (c *RegionCache) VerifSendFail(bo *retry.Backoffer, v RegionVerID, schedule
 	ctx := &RPCContext{Region: v, Meta: r.meta, Peer: peer, AccessIdx: aidx, Store: store, AccessMode: tiKVOnly}
 	c.OnSendFail(bo, ctx, scheduleReload, errors.New("verif: send fail"))
 	return true
-=======
+}
+
 // VerifRepSnap / VerifSelSnap: a read-only picture of the sender's current replica selector (C10 selector tie).
 type VerifRepSnap struct {
 	PeerID, StoreID                                        uint64
@@ -184,5 +184,4 @@ func (s *RegionRequestSender) VerifSelectorSnapshot(threshold time.Duration) *Ve
 		}
 	}
 	return out
->>>>>>> c10
 }
